@@ -9,7 +9,7 @@ use std::os::unix::ffi::OsStringExt;
 use vcore::drive::{prop_worker, Verdict};
 use vcore::rt::{self, digest_str, Acc, Args, Report};
 
-const RULE: &str = "Exhaustive cross product global {Auto, AlwaysAnsi, Always, Never} x NO_COLOR {unset,'','0','1'} x CLICOLOR_FORCE {unset,'','0','1'} x CLICOLOR {unset,'','0','1'} x TERM {unset,'','dumb','xterm-256color'} x CI {unset,'','true'} x stream {Vec<u8>, regular file, pipe (non-terminals), pty master (terminal)} = 6144 configurations x 2 stream classes, enumerated in this single-threaded process; plus seeded random values per variable (whitespace, '00', 'false', non-UTF-8 bytes, long strings); COLORTERM values and the clap flag enumerated separately. Oracle: the decision list of the property as a pure function of (global, environment, is-terminal); probes against their published conventions. Non-trivial = global is Auto and at least one variable is set (distinct by configuration).";
+const RULE: &str = "Exhaustive cross product global {Auto, AlwaysAnsi, Always, Never} x NO_COLOR {unset,'','0','1'} x CLICOLOR_FORCE {unset,'','0','1'} x CLICOLOR {unset,'','0','1'} x TERM {unset,'','dumb','xterm-256color'} x CI {unset,'','true'} x COLORTERM {unset,'truecolor','24bit'} (which must not influence the decision) x stream {Vec<u8>, regular file, pipe (non-terminals), pty master (terminal)} = 9216 configurations x 2 stream classes (terminal, non-terminal), enumerated in this single-threaded process; plus seeded random values per variable (whitespace, '00', 'false', non-UTF-8 bytes, long strings); COLORTERM values and the clap flag enumerated separately. Oracle: the decision list of the property as a pure function of (global, environment, is-terminal); probes against their published conventions. Non-trivial = global is Auto and at least one variable is set (distinct by configuration).";
 
 const VARS: [&str; 5] = ["NO_COLOR", "CLICOLOR_FORCE", "CLICOLOR", "TERM", "CI"];
 
@@ -20,6 +20,9 @@ struct Config {
     /// values of NO_COLOR, CLICOLOR_FORCE, CLICOLOR, TERM, CI as byte strings (None = unset)
     env: [Option<Vec<u8>>; 5],
     terminal: bool,
+    /// COLORTERM: probed by truecolor() only, it has no part in the decision
+    #[serde(default)]
+    colorterm: Option<Vec<u8>>,
 }
 
 fn choice_of(c: u8) -> ColorChoice {
@@ -37,6 +40,10 @@ fn apply_env(cfg: &Config) {
             None => std::env::remove_var(k),
             Some(b) => std::env::set_var(k, OsString::from_vec(b.clone())),
         }
+    }
+    match &cfg.colorterm {
+        None => std::env::remove_var("COLORTERM"),
+        Some(b) => std::env::set_var("COLORTERM", OsString::from_vec(b.clone())),
     }
     choice_of(cfg.global).write_global();
 }
@@ -163,6 +170,10 @@ fn check_config(cfg: &Config, st: &Streams) -> Result<(), String> {
     if anstyle_query::term_supports_color() != want_term || anstyle_query::term_supports_ansi_color() != want_term {
         return Err(format!("term_supports_color() = {} / ansi {} expected {} for {}", anstyle_query::term_supports_color(), anstyle_query::term_supports_ansi_color(), want_term, show()));
     }
+    let want_true = matches!(cfg.colorterm.as_deref(), Some(b"truecolor") | Some(b"24bit"));
+    if anstyle_query::truecolor() != want_true {
+        return Err(format!("truecolor() = {} for {}", anstyle_query::truecolor(), show()));
+    }
     if anstyle_query::is_ci() != ci.is_some() {
         return Err(format!("is_ci() = {} for {}", anstyle_query::is_ci(), show()));
     }
@@ -176,6 +187,10 @@ fn describe(cfg: &Config) -> String {
             None => s.push_str(&format!(" {k}=<unset>")),
             Some(b) => s.push_str(&format!(" {k}='{}'", rt::esc(b))),
         }
+    }
+    match &cfg.colorterm {
+        None => {}
+        Some(b) => s.push_str(&format!(" COLORTERM='{}'", rt::esc(b))),
     }
     s.push_str(if cfg.terminal { " stream=terminal" } else { " stream=non-terminal" });
     s
@@ -271,8 +286,9 @@ fn arb_value() -> impl Strategy<Value = Option<Vec<u8>>> {
 }
 
 fn arb_config(have_pty: bool) -> impl Strategy<Value = Config> {
-    (prop_oneof![3 => Just(0u8), 1 => 1u8..4], [arb_value(), arb_value(), arb_value(), arb_value(), arb_value()], any::<bool>())
-        .prop_map(move |(global, env, terminal)| Config { global, env, terminal: terminal && have_pty })
+    let colorterm = prop_oneof![3 => Just(None), 1 => Just(Some(b"truecolor".to_vec())), 1 => Just(Some(b"24bit".to_vec())), 1 => arb_value()];
+    (prop_oneof![3 => Just(0u8), 1 => 1u8..4], [arb_value(), arb_value(), arb_value(), arb_value(), arb_value()], any::<bool>(), colorterm)
+        .prop_map(move |(global, env, terminal, colorterm)| Config { global, env, terminal: terminal && have_pty, colorterm })
 }
 
 fn run(args: &Args, rep: &mut Report) {
@@ -288,6 +304,7 @@ fn run(args: &Args, rep: &mut Report) {
 
     let four: [Option<Vec<u8>>; 4] = [None, Some(vec![]), Some(b"0".to_vec()), Some(b"1".to_vec())];
     let terms: [Option<Vec<u8>>; 4] = [None, Some(vec![]), Some(b"dumb".to_vec()), Some(b"xterm-256color".to_vec())];
+    let colorterms: [Option<Vec<u8>>; 3] = [None, Some(b"truecolor".to_vec()), Some(b"24bit".to_vec())];
     let cis: [Option<Vec<u8>>; 3] = [None, Some(vec![]), Some(b"true".to_vec())];
     let mut acc = Acc::new();
     acc.sample_cap = 4;
@@ -297,12 +314,13 @@ fn run(args: &Args, rep: &mut Report) {
                 for cc in &four {
                     for term in &terms {
                         for ci in &cis {
+                          for colorterm in &colorterms {
                             for terminal in [false, true] {
                                 if terminal && !have_pty {
                                     acc.class("skipped:no-pty");
                                     continue;
                                 }
-                                let cfg = Config { global, env: [nc.clone(), cf.clone(), cc.clone(), term.clone(), ci.clone()], terminal };
+                                let cfg = Config { global, env: [nc.clone(), cf.clone(), cc.clone(), term.clone(), ci.clone()], terminal, colorterm: colorterm.clone() };
                                 acc.eval();
                                 if global == 0 && cfg.env.iter().any(|v| v.is_some()) {
                                     acc.nontrivial_distinct();
@@ -314,13 +332,14 @@ fn run(args: &Args, rep: &mut Report) {
                                 }
                                 acc.sample(|| json!({"config": describe(&cfg), "expected": format!("{:?}", expected(&cfg))}));
                             }
+                          }
                         }
                     }
                 }
             }
         }
     }
-    rep.add("cross-product", true, "4 x 4 x 4 x 4 x 4 x 3 configurations x {non-terminal (Vec, file, pipe), terminal (pty)}", vec![acc]);
+    rep.add("cross-product", true, "4 x 4 x 4 x 4 x 4 x 3 configurations x COLORTERM {unset, truecolor, 24bit} (no part in the decision) x {non-terminal (Vec, file, pipe), terminal (pty)}", vec![acc]);
 
     let mut acc = Acc::new();
     prop_worker(
